@@ -119,8 +119,49 @@ def plan(ctx, geos):
             if np_ < 2:
                 continue
             add(lay, unit, [life("leech", a, rwi=RWI), life("leech", b, rwi=RWI), settle()], "continue")
+    # Z: content with all-zero DATA pieces (their hash is the hash of zeros) x pre-existing copies of the data files that are
+    #    stale / wrong only in the zero ranges / truncated / partly missing / good, x kills at every crash point: a bit must
+    #    never be set (on any start path) for content that is not in the files
+    PRES = {"none": [], "patch": [{"f": -1, "kind": "patch"}], "stale": [{"f": -1, "kind": "stale"}], "short": [{"f": -1, "kind": "short"}],
+            "mixed": [{"f": 0, "kind": "stale"}], "good": [{"f": -1, "kind": "good"}]}
+    zplan = [("zspan", ["patch"]), ("zrun", ["stale-lite"]), ("zfile", ["none"])] if quick else \
+            [(z, ["patch", "stale", "none", "short", "mixed", "good"]) for z in ("zspan", "zrun", "zend", "zfile")]
+    for lay, pres in zplan:
+        g = geos[(lay, 16384)]
+        nwz = sum(len(g["fo"][p]) for p in g["zp"])
+        for pre in pres:
+            kills = []
+            if pre == "patch":      # only the zero pieces are downloaded
+                for j in range(nwz):
+                    kills += [(K(ph, j, GATE_DELAY), RWI) for ph in ("w-enter", "w-half", "w-exit")]
+                for j in range(len(g["zp"])):
+                    kills += [(K("bit", j), NEVER), (K("persisted", j), RWI)]
+                kills += [(K("settled", 0, GATE_DELAY), RWI), (K("r-enter", 0), RWI), (K("r-enter", g["nw"] - 1, GATE_DELAY), RWI),
+                          (K("complete", 0, GATE_DELAY), RWI), (K("stop", 0, -1), NEVER), (K("close", 0, -1), NEVER)]
+            elif pre == "stale":    # everything is downloaded over the stale bytes
+                for j in range(g["nw"]):
+                    kills += [(K(ph, j, GATE_DELAY), RWI) for ph in ("w-enter", "w-half", "w-exit")]
+                for j in range(g["np"]):
+                    kills += [(K("persisted", j), RWI)]
+                kills += [(K("settled", 0, GATE_DELAY), RWI), (K("r-enter", 0), RWI), (K("complete", 0, 0), NEVER), (K("stop", 0, -1), NEVER)]
+            elif pre == "stale-lite":
+                kills = [(K("settled", 0, GATE_DELAY), RWI), (K("w-half", 0, GATE_DELAY), RWI), (K("persisted", 0), RWI), (K("complete", 0, GATE_DELAY), RWI)]
+            else:
+                kills = [(K("settled", 0, GATE_DELAY), RWI), (K("w-half", 0, GATE_DELAY), RWI), (K("bit", 0), NEVER), (K("persisted", 0), RWI),
+                         (K("complete", 0, GATE_DELAY), RWI)]
+                if pre != "none":
+                    kills.append((K("r-enter", 0), RWI))
+            for kill, rwi in kills:
+                runs = [life("leech", kill, rwi=rwi), settle()]
+                if not quick and kill["kind"] in ("settled", "persisted") and kill["n"] == 0:
+                    # the download goes on in a second life, and a file is deleted before the last one
+                    add(lay, 16384, [life("leech", kill, rwi=rwi), life("leech", K("w-half", 0, GATE_DELAY), rwi=RWI), settle()], "zero")
+                    add(lay, 16384, [life("leech", kill, rwi=rwi), settle(dele=[g["nf"] - 1] if g["nf"] > 1 else [-1])], "zero")
+                    scs[-1]["pre"] = scs[-2]["pre"] = PRES.get(pre, PRES["stale"])
+                add(lay, 16384, runs, "zero")
+                scs[-1]["pre"] = PRES.get(pre, PRES["stale"])
     # D: default storage provider, kills at jittered times while the periodic writer commits every 2 ms
-    njit = ctx.pick(10, 200)
+    njit = ctx.pick(10, 150)
     for i in range(njit):
         lay = rng.choice(layouts)
         unit = 16384 if quick else rng.choice([16384, 5000])
@@ -141,6 +182,8 @@ def plan(ctx, geos):
 
 def hist_class(sc):
     parts = []
+    if sc.get("pre"):
+        parts.append("pre=" + "+".join(sorted({p["kind"] for p in sc["pre"]})) + ("" if sc["pre"][0]["f"] == -1 else "(some)"))
     for r in sc["runs"]:
         d = r.get("del")
         if d:
@@ -181,7 +224,8 @@ def run(ctx):
     ctx.cov["rule"] = ("crash histories = sequences of process lives on one resume database + data directory, each ended by SIGKILL at an "
                        "enumerated point (storage write enter/half/exit per file section, bit set, bit persisted, stop, close, completion, Verify, "
                        "allocation open enter/exit, verification read, settled, jittered time) with data-file subsets deleted in between; "
-                       "non-trivial = a kill at a storage/allocation/verification gate, a deletion or >= 3 lives; distinct = layout x history class x kill ordinals")
+                       "layouts include content with all-zero data pieces over pre-existing stale / partial / truncated copies of the data files; "
+                       "non-trivial = a kill at a storage/allocation/verification gate, a deletion, planted files or >= 3 lives; distinct = layout x history class x kill ordinals")
     ctx.assumptions += ["power loss is not simulated: SIGKILL keeps the page cache, so the O_SYNC flag of every data-file descriptor (/proc/self/fdinfo) is the "
                         "observable obligation for durability of a returned write (C05.osync)",
                         "the wrapping storage provider delegates to the real internal/storage/filestorage and splits every WriteAt into two halves",
@@ -230,7 +274,7 @@ def code_level(ctx, scs=None):
     drv = ctx.build_go("c05")
     if scs is None:
         geos = {}
-        for lay in ["multi", "single", "empties", "padmid", "padalign", "odd"]:
+        for lay in ["multi", "single", "empties", "padmid", "padalign", "odd", "zspan", "zrun", "zend", "zfile"]:
             for unit in (16384, 5000):
                 r = ctx.run_drv(drv, ["probe", "-layout", lay, "-unit", str(unit)], timeout=60)
                 geos[(lay, unit)] = json.loads(r.stdout.strip().splitlines()[-1])
@@ -262,12 +306,13 @@ def code_level(ctx, scs=None):
         hc = hist_class(sc)
         ords = ",".join("%s#%d" % (r["kill"]["kind"], r["kill"]["n"]) for r in sc["runs"])
         gate = any(re.match(r"(w|r|open)-", r["kill"]["kind"]) for r in sc["runs"])
-        ctx.count_case((sc["layout"], sc["unit"], hc, ords), gate or "del=" in hc or len(sc["runs"]) >= 3)
+        ctx.count_case((sc["layout"], sc["unit"], hc, ords), gate or "del=" in hc or "pre=" in hc or len(sc["runs"]) >= 3)
         lives += sum(1 for e in es if e["ev"] == "up")
         kills_gate += sum(1 for e in es if e["ev"] == "crash" and re.match(r"(w|r|open)-", e["point"]))
         ctx.oblig("C05.db(crash)", sum(1 for e in es if e["ev"] == "crash"))
         ctx.oblig("C05.reopen(restart)", sum(1 for e in es if e["ev"] == "up" and not e["fresh"]))
         ctx.oblig("C05.ahead(settled)", sum(1 for e in es if e["ev"] == "settled"))
+        ctx.oblig("C05.ahead(settled, zero-hash pieces over planted files)", sum(1 for e in es if e["ev"] == "settled" and sc.get("pre") and sc["layout"].startswith("z")))
         ctx.oblig("C05.missing(settled after delete)", sum(1 for i, e in enumerate(es) if e["ev"] == "settled" and any(x["ev"] == "delete" and x["files"] for x in es[:i])))
         ctx.oblig("C05.osync(open)", sum(1 for e in es if e["ev"] in ("open", "osync")))
     ctx.extra["process_lives"] = lives
@@ -301,7 +346,7 @@ def judge_traces(ctx, absf, index, evs, by_id):
         ev = es[line - first]
         # which life of the scenario the event belongs to -> the history up to and including that life
         nlife = sum(1 for e in es[:line - first + 1] if e["ev"] == "up")
-        hc = hist_class({"runs": sc["runs"][:max(1, nlife)]})
+        hc = hist_class({"runs": sc["runs"][:max(1, nlife)], "pre": sc.get("pre")})
         at = ev["ev"] + (":" + ev["point"] if ev["ev"] == "crash" else "")
         sig = "tag=%s hist=%s; at=%s" % (tag, hc, at)
         if tag.endswith(".recreated") and any(r.get("del") for r in sc["runs"]):
